@@ -367,6 +367,42 @@ def resolve_ifexp(t, conds) -> Term:
     return rebuild(t, f)
 
 
+_SIGNS = {'lt': {-1}, 'le': {-1, 0}, 'eq': {0}, 'ne': {-1, 1}, 'gt': {1}, 'ge': {0, 1}}
+
+
+def contradictory(conds) -> bool:
+    """The conjunction of the path conditions is unsatisfiable for a simple reason: a condition together with its
+    negation, or comparisons of one and the same quantity with 0 that exclude each other (`x == 0` and `x < 0`)."""
+    cs = list(conds)
+    s = set(cs)
+    for c in cs:
+        try:
+            if mk_not(c) in s:
+                return True
+        except Exception:
+            pass
+    allowed: Dict[tuple, set] = {}
+    for c in cs:
+        if not (isinstance(c, tuple) and c and c[0] == 'cmp' and c[1] in _SIGNS and is_poly(c[2])):
+            continue
+        p, signs = c[2], set(_SIGNS[c[1]])
+        its = p[1]
+        if not its:
+            continue
+        # orientation: make the first non-constant coefficient positive
+        lead = next((co for m, co in its if m != ()), None)
+        if lead is None:
+            continue
+        if lead < 0:
+            p = neg(p)
+            signs = {-x for x in signs}
+        cur = allowed.get(p)
+        allowed[p] = signs if cur is None else (cur & signs)
+        if not allowed[p]:
+            return True
+    return False
+
+
 def subst_atoms(t, mapping: Dict[tuple, Term]):
     if not mapping:
         return t
